@@ -28,7 +28,7 @@ type latencyCase struct {
 	N    int    `json:"n"`
 }
 
-const promptBound = 500 * time.Millisecond // "without waiting": generous bound on a loaded machine; expected µs
+const promptBound = 2 * time.Second // "without waiting": generous bound on a loaded machine; expected µs (the alternative is blocking for good or for the 5 s send timeout)
 
 func (c latencyCase) run(m *lib.Monitor) (maxLatency time.Duration) {
 	switch c.What {
@@ -293,7 +293,7 @@ func (c latencyCase) valueTimeout(m *lib.Monitor) (max time.Duration) {
 }
 
 func runLatency(f lib.Flags, res *lib.Result) {
-	mon := res.Monitor("writers-and-subscribers", "real Value/Collection with real Pull subscribers: with an idle lossy subscriber every Set/Update/Delete returns (bound 500ms, latencies recorded) and on reading the subscriber gets the most recent value / a per-id chained stream folding to List; with backpressure Set does not return before the subscriber receives, and nothing is dropped or reordered while it keeps receiving; thorough: a never-read backpressured Pull makes Set return an error after ~5s; distinct = scenario")
+	mon := res.Monitor("writers-and-subscribers", "real Value/Collection with real Pull subscribers: with an idle lossy subscriber every Set/Update/Delete returns (bound 2s, latencies recorded) and on reading the subscriber gets the most recent value / a per-id chained stream folding to List; with backpressure Set does not return before the subscriber receives, and nothing is dropped or reordered while it keeps receiving; thorough: a never-read backpressured Pull makes Set return an error after ~5s; distinct = scenario")
 	cases := []latencyCase{
 		{Kind: "latency", What: "value-idle", N: f.N(200, 2000)},
 		{Kind: "latency", What: "collection-idle", N: f.N(200, 2000)},
